@@ -35,6 +35,18 @@ def run_solve(cases, tag, timeout=1800, race=False):
     if race:
         env["GORACE"] = "halt_on_error=0 log_path=%s" % os.path.join(C.BUILD, "race_%s" % tag)
     rc, out, err = C.run([binary, "solve", cf], timeout=timeout, env=env)
+    return parse_solve_output(out), rc, err
+
+
+def run_solve_raw(blocks, tag, timeout=1800):
+    """blocks: [(id, [json line, gopt line, build line, solve line])] - inputs written by hand rather than generated models"""
+    cf = os.path.join(C.BUILD, "solve_%s.case" % tag)
+    C.write_cases(cf, blocks)
+    rc, out, err = C.run([C.HARNESS, "solve", cf], timeout=timeout, env=dict(C.GOENV))
+    return parse_solve_output(out), rc, err
+
+
+def parse_solve_output(out):
     runs = {}
     for line in out.splitlines():
         fs = line.split()
@@ -43,11 +55,34 @@ def run_solve(cases, tag, timeout=1800, race=False):
         key = (fs[0], fs[1])
         r = runs.setdefault(key, {"scores": [], "done": None, "flags": [], "snap": []})
         if fs[2] == "sol":
-            r["scores"].append(F(fs[5]))
+            try:
+                r["scores"].append(F(fs[5]))
+            except (ValueError, ZeroDivisionError):
+                r["scores"].append(None)          # a score that is not a finite number
+                r["flags"].append("score not a finite number: %s" % fs[5])
         elif fs[2] == "done":
             r["done"] = dict(zip(fs[3::2], map(int, fs[4::2])))
         elif fs[2] in ("PANIC", "HANG", "solerror", "build", "solver", "solve"):
             r["flags"].append(" ".join(fs[2:])[:300])
         else:
             r["snap"].append(" ".join(fs[2:]))
-    return runs, rc, err
+    return runs
+
+
+DEFAULT_GOPT = {
+    "constraints": {"disable": {"attributes": False, "capacity": False, "capacities": [], "distance_limit": False, "groups": False,
+                                "maximum_duration": False, "maximum_stops": False, "maximum_wait_stop": False, "maximum_wait_vehicle": False,
+                                "mixing_items": False, "precedence": False, "vehicle_start_time": False, "vehicle_end_time": False,
+                                "start_time_windows": False}, "enable": {"cluster": False}},
+    "objectives": {"capacities": "", "min_stops": 1.0, "early_arrival_penalty": 1.0, "late_arrival_penalty": 1.0,
+                   "vehicle_activation_penalty": 1.0, "travel_duration": 0.0, "vehicles_duration": 1.0, "unplanned_penalty": 1.0,
+                   "cluster": 0.0, "stop_balance": 0.0},
+    "properties": {"disable": {"durations": False, "stop_duration_multipliers": False, "duration_groups": False, "initial_solution": False}},
+    "validate": {"disable": {"start_time": False, "resources": True}, "enable": {"matrix": False, "matrix_asymmetry_tolerance": 20}},
+}
+
+
+def raw_block(cid, inp, settings, gopt=None):
+    import json
+    return (cid, ["json " + json.dumps(inp, separators=(",", ":")), "gopt " + json.dumps(gopt or DEFAULT_GOPT, separators=(",", ":")),
+                  "build", settings_str(settings)])
